@@ -1227,6 +1227,8 @@ impl PeerAware for PeerStates {
         if let Some((ingress_id, _ingress_info)) = ingress_register.find_existing_peer(&query_ingress) {
             peer_ingress_id = ingress_id;
         } else {
+            #[cfg(feature = "verif-hooks")]
+            crate::verif::point("add_peer_config.lookup_missed");
             peer_ingress_id = ingress_register.register();
             ingress_register.update_info(peer_ingress_id, query_ingress);
         }
